@@ -324,6 +324,9 @@ def run(rec, tier, seed):
         six = [list(s) for s in itertools.product(R3, repeat=6)]
     for s in six:
         cases.append({'gen': ['rank3', s, 1.0], 'routes': [list(r) for r in ROUTES_FAST], 'every': 11})
+    # rank 3 with a copolymer (non-zero cross omega between A and B) next to a third species
+    for s in (six[::4] if quick else six[::16]):
+        cases.append({'gen': ['rank3', s, 1.0, '128x0.1', 1], 'routes': [list(r) for r in ROUTES_FAST], 'every': 11})
     nchunk = 64 if quick else 512
     chunks = [cases[i::nchunk] for i in range(nchunk)]
     core.pmap(_worker, [c for c in chunks if c], rec)
